@@ -44,7 +44,7 @@ func TestMain(m *testing.M) {
 }
 
 type stats struct {
-	lookups, nonEmpty, mapForm, reorgs, toggles, emptiedAndRepaid, restored int
+	lookups, nonEmpty, mapForm, reorgs, toggles, emptiedAndRepaid, restored, foreign int
 }
 
 // addrOf builds the address object for an address-shaped script with the reference decoder's view.
@@ -75,11 +75,12 @@ func run(c Case, st *stats) (*sim.Sim, error) {
 	emptied := map[string]bool{}
 	var s *sim.Sim
 	walletOn := false
+	curMin := c.MinValue // the minimum value the index is (to be) built with
 	enable := func() {
 		common.BlockChain = s.Node.Ch
 		common.Testnet = false
 		common.CFG.Testnet = false
-		common.CFG.AllBalances.MinValue = c.MinValue
+		common.CFG.AllBalances.MinValue = curMin
 		common.CFG.AllBalances.UseMapCnt = c.UseMapCnt
 		common.GocoinHomeDir = s.Dir + "/"
 		wallet.LoadBalancesFromUtxo()
@@ -110,7 +111,7 @@ func run(c Case, st *stats) (*sim.Sim, error) {
 		}
 		proj := map[string][]out{}
 		for k, coin := range s.Tip.View {
-			if seen[string(coin.Script)] && coin.Value >= c.MinValue {
+			if seen[string(coin.Script)] && coin.Value >= curMin {
 				proj[string(coin.Script)] = append(proj[string(coin.Script)], out{k, coin.Value})
 			}
 		}
@@ -127,7 +128,7 @@ func run(c Case, st *stats) (*sim.Sim, error) {
 			}
 			sort.Slice(gl, func(i, j int) bool { return bytes.Compare(gl[i].key[:], gl[j].key[:]) < 0 })
 			if len(gl) != len(want) {
-				return fmt.Errorf("address of script %x: the index lists %d unspent outputs, the unspent set holds %d (>= %d satoshi)", script, len(gl), len(want), c.MinValue)
+				return fmt.Errorf("address of script %x: the index lists %d unspent outputs, the unspent set holds %d (>= %d satoshi)", script, len(gl), len(want), curMin)
 			}
 			var total uint64
 			for i := range want {
@@ -165,6 +166,26 @@ func run(c Case, st *stats) (*sim.Sim, error) {
 				st.mapForm++
 			}
 		}
+		// an address of ANOTHER witness version with the program of an indexed version-0 address denotes another
+		// script (not a standard one, not indexed): asking for it must not return the version-0 address's outputs
+		for scr := range seen {
+			script := []byte(scr)
+			v, prog, ok := consensus.WitnessProgram(script)
+			if !ok || v != 0 || len(proj[scr]) == 0 {
+				continue
+			}
+			vers := []int{2 + int(prog[0])%15}
+			if len(prog) == 20 {
+				vers = append(vers, 1)
+			}
+			for _, fv := range vers {
+				foreign := &btc.BtcAddr{SegwitProg: &btc.SegwitProg{HRP: "bc", Version: fv, Program: append([]byte{}, prog...)}}
+				if got := wallet.GetAllUnspent(foreign); len(got) != 0 {
+					return fmt.Errorf("the address of witness version %d with program %x (script %x is not in the unspent set) is reported with %d unspent outputs - those of the version-0 address with the same program", fv, prog, foreign.OutScript(), len(got))
+				}
+				st.foreign++
+			}
+		}
 		// no record for anything else
 		n := 0
 		wallet.Browse(func(int, wallet.OneAddrIndex, *wallet.OneAllAddrBal) { n++ })
@@ -195,14 +216,26 @@ func run(c Case, st *stats) (*sim.Sim, error) {
 				common.Last.Mutex.Unlock()
 				common.CFG.AllBalances.SaveBalances = true
 				wallet.LAST_SAVED_FNAME = ""
+				// sometimes the operator has edited the minimum value in the configuration while the node was running
+				// (the node then says "restart the node or do wallet off/on"): the running index, and what is saved, is
+				// still the one of the old value; after the restart the new value applies
+				newMin := curMin
+				if op.Arg%3 == 0 {
+					newMin = []uint64{0, 1, 1000, 100000, 50000000, 2500000000}[op.Arg/3%6]
+					common.CFG.AllBalances.MinValue = newMin
+				}
 				if err := wallet.SaveBalances(); err == nil {
 					wallet.Disable()
+					curMin = newMin
+					common.ApplyBalMinVal() // (start-up of the new process)
 					if err := wallet.LoadBalances(); err != nil {
 						wallet.LoadBalancesFromUtxo()
 					} else {
 						st.restored++
 					}
 					walletOn = common.Get(&common.WalletON)
+				} else {
+					common.CFG.AllBalances.MinValue = curMin // nothing was saved: the node keeps running as it was
 				}
 			}
 		}
@@ -258,7 +291,8 @@ func genCase(t *rapid.T, p sim.Profile) Case {
 	var ops []sim.Op
 	for _, op := range c.Sim.Ops {
 		if rapid.IntRange(0, 14).Draw(t, "toggle") == 0 {
-			ops = append(ops, sim.Op{Kind: rapid.SampledFrom([]string{"wallet_off", "wallet_on", "wallet_on", "wallet_restart", "wallet_restart"}).Draw(t, "which")})
+			ops = append(ops, sim.Op{Kind: rapid.SampledFrom([]string{"wallet_off", "wallet_on", "wallet_on", "wallet_restart", "wallet_restart"}).Draw(t, "which"),
+				Arg: rapid.IntRange(0, 17).Draw(t, "restartarg")})
 		}
 		ops = append(ops, op)
 	}
@@ -325,6 +359,7 @@ func TestBalances(t *testing.T) {
 			r.Class("index_saved_and_restored")
 		}
 		pbt.AddExtra("address_lookups", int64(st.lookups))
+		pbt.AddExtra("foreign_witness_version_lookups", int64(st.foreign))
 		pbt.AddExtra("non_empty_lookups", int64(st.nonEmpty))
 		if x, ok := err.(*sim.Excluded); ok {
 			r.Excluded(x.Key)
